@@ -508,8 +508,15 @@ def run_interleave(case):
         else:
             diff = ['length']
             detail = 'instance %d: trace length %d vs solo %d (%s)' % (i, mm['len_got'], mm['len_want'], mm.get('op'))
-        if regime == 'mixed':
+        created = [j for a_, j in case['actions'] if a_ == 'c']
+        last_created = created[-1] if created else None
+        if regime == 'mixed' and i != last_created:
+            # the known finding, identified by the history that fails: an instance that is NOT the last one constructed runs under the configuration
+            # of the one constructed after it.  The instance constructed LAST owns the process-wide configuration for the rest of the run and must
+            # match its solo trace like any other
             site, cls = 'regime=mixed', 'config_singleton'
+        elif regime == 'mixed':
+            site, cls = 'regime=mixed:last-created', _bucket(diff)
         else:
             site, cls = 'regime=' + regime, _bucket(diff)
         res['violations'].append({'oracle': 'interleave.solo_eq', 'site': site, 'cls': cls, 'detail': detail, 'tick': t})
